@@ -287,3 +287,83 @@ theorem sock_linear : Linear sockSrc Sock.all where
     · rw [e] at h; split at h <;> cases h
 
 end Ubx
+
+namespace Ubx
+variable {α σ : Type}
+
+theorem run_none_succ (S : Src σ) (nmeaHdr) (cfg : RCfg) (O : Oracle α) (f : Nat) :
+    run S nmeaHdr cfg O (f + 1) none = [.eof] := rfl
+
+/-- enough fuel: one more unit changes nothing once `fuel ≥ |remaining| + 2` -/
+theorem run_fuel_succ (S : Src σ) (all : σ → Bytes) (L : Linear S all) (nmeaHdr) (cfg : RCfg) (O : Oracle α)
+    (f : Nat) (s : σ) (hf : (all s).length + 2 ≤ f) :
+    run S nmeaHdr cfg O (f + 1) (some s) = run S nmeaHdr cfg O f (some s) := by
+  induction f generalizing s with
+  | zero => omega
+  | succ f ih =>
+    rw [run, run]
+    generalize hst : step S nmeaHdr cfg O s = st
+    obtain ⟨o, r⟩ := st
+    cases r with
+    | none =>
+      have hf1 : f = (f - 1) + 1 := by omega
+      cases o <;> simp only [] <;> (try rfl) <;> (rw [hf1, run_none_succ, run_none_succ])
+    | some s' =>
+      obtain ⟨pre, hpre, hall, _⟩ := step_linear S all L nmeaHdr cfg O s s' o hst
+      have hlen : (all s').length + 1 ≤ (all s).length := by
+        rw [hall, List.length_append]
+        have : 0 < pre.length := List.length_pos_iff.mpr hpre
+        omega
+      have := ih s' (by omega)
+      cases o <;> simp only [] <;> (try rfl) <;> rw [this]
+
+theorem run_fuel_ge (S : Src σ) (all : σ → Bytes) (L : Linear S all) (nmeaHdr) (cfg : RCfg) (O : Oracle α)
+    (s : σ) (f : Nat) (hf : (all s).length + 2 ≤ f) :
+    run S nmeaHdr cfg O f (some s) = run S nmeaHdr cfg O ((all s).length + 2) (some s) := by
+  obtain ⟨d, rfl⟩ : ∃ d, f = (all s).length + 2 + d := ⟨f - ((all s).length + 2), by omega⟩
+  induction d with
+  | zero => rfl
+  | succ d ih =>
+    rw [← Nat.add_assoc, run_fuel_succ S all L nmeaHdr cfg O _ s (by omega)]
+    exact ih (by omega)
+
+/-- a whole iteration over a byte string held in a file-like stream -/
+def readFile (nmeaHdr : Byte → Bool) (cfg : RCfg) (O : Oracle α) (s : Bytes) : List (Out α) :=
+  run fileSrc nmeaHdr cfg O (s.length + 2) (some s)
+
+/-- a whole iteration over a socket whose `recv()` calls deliver `chunks` -/
+def readSock (nmeaHdr : Byte → Bool) (cfg : RCfg) (O : Oracle α) (chunks : List Bytes) : List (Out α) :=
+  run sockSrc nmeaHdr cfg O (chunks.flatten.length + 2) (some (sockInit chunks))
+
+/-- with enough fuel the trace ends with end-of-stream or a crash: the iteration terminates -/
+theorem run_ends (S : Src σ) (all : σ → Bytes) (L : Linear S all) (nmeaHdr) (cfg : RCfg) (O : Oracle α)
+    (f : Nat) (st : Option σ) (hf : ∀ s, st = some s → (all s).length + 2 ≤ f) (h0 : 0 < f) :
+    ∃ tr o, run S nmeaHdr cfg O f st = tr ++ [o] ∧ (o = .eof ∨ ∃ p c, o = .crash p c) := by
+  induction f generalizing st with
+  | zero => omega
+  | succ f ih =>
+    cases st with
+    | none => exact ⟨[], .eof, rfl, Or.inl rfl⟩
+    | some s =>
+      rw [run]
+      generalize hst : step S nmeaHdr cfg O s = stp
+      obtain ⟨o, r⟩ := stp
+      have hfs := hf s rfl
+      have hrec : ∃ tr o', run S nmeaHdr cfg O f r = tr ++ [o'] ∧ (o' = .eof ∨ ∃ p c, o' = .crash p c) := by
+        apply ih r
+        · intro s' hs'
+          subst hs'
+          obtain ⟨pre, hpre, hall, _⟩ := step_linear S all L nmeaHdr cfg O s s' o hst
+          have : 0 < pre.length := List.length_pos_iff.mpr hpre
+          rw [hall, List.length_append] at hfs
+          omega
+        · omega
+      obtain ⟨tr, o', e, ho'⟩ := hrec
+      cases o with
+      | eof => exact ⟨[], .eof, rfl, Or.inl rfl⟩
+      | crash p c => exact ⟨[], .crash p c, rfl, Or.inr ⟨p, c, rfl⟩⟩
+      | skip => exact ⟨.skip :: tr, o', by simp [e], ho'⟩
+      | err k => exact ⟨.err k :: tr, o', by simp [e], ho'⟩
+      | item p raw m => exact ⟨.item p raw m :: tr, o', by simp [e], ho'⟩
+
+end Ubx
